@@ -335,7 +335,7 @@ func (e *Env) field(ce *CE) (CVal, error) {
 			name, _ := fg.fieldVar(curT, cur, pi)
 			ft := cur.Field(pi).Type()
 			if inner, ok := ft.Underlying().(*types.Struct); ok {
-				ref = App("fld:"+name, SInt, ref)
+				ref = fg.subRef(name, ref)
 				cur, curT = inner, ft
 			} else if innerS, innerT, ok := isStructPtr(ft); ok {
 				hs := ArraySort(SInt, SInt)
@@ -346,7 +346,7 @@ func (e *Env) field(ce *CE) (CVal, error) {
 		name, hs := fg.fieldVar(curT, cur, idx)
 		ft := cur.Field(idx).Type()
 		if inner, ok := ft.Underlying().(*types.Struct); ok {
-			return CVal{T: fg.loadStruct(e.st, App("fld:"+name, SInt, ref), ft, inner), Ty: ft}, nil
+			return CVal{T: fg.loadStruct(e.st, fg.subRef(name, ref), ft, inner), Ty: ft}, nil
 		}
 		return CVal{T: Select(fg.lookup(e.st, name, hs), ref), Ty: ft}, nil
 	}
@@ -716,6 +716,44 @@ func (e *Env) call(ce *CE) (CVal, error) {
 			return CVal{}, err
 		}
 		return CVal{T: IVal(a.T), Ty: ty}, nil
+	case "gmap", "gmapUpdated":
+		// ghost map attached to an object (e.g. the content of an InMemoryCache): GM:<name> : ref -> key -> interface value
+		if args[0].Kind != "str" {
+			return CVal{}, fmt.Errorf("gmap needs a literal name")
+		}
+		obj, err := e.eval(args[1])
+		if err != nil {
+			return CVal{}, err
+		}
+		key, err := e.eval(args[2])
+		if err != nil {
+			return CVal{}, err
+		}
+		if obj.T == nil || key.T == nil {
+			return CVal{}, fmt.Errorf("bad gmap arguments")
+		}
+		idx := obj.T
+		if idx.Sort == SIface {
+			idx = IVal(idx)
+		}
+		vname := "GM:" + args[0].Str
+		vsort := ArraySort(SInt, ArraySort(key.T.Sort, SIface))
+		cur := fg.lookup(e.st, vname, vsort)
+		if name == "gmap" {
+			return CVal{T: Select(Select(cur, idx), key.T), Ty: types.NewInterfaceType(nil, nil)}, nil
+		}
+		val, err := e.eval(args[3])
+		if err != nil {
+			return CVal{}, err
+		}
+		if val.IsNil {
+			val.T = nilIface
+		}
+		if val.T == nil || val.T.Sort != SIface || e.old == nil {
+			return CVal{}, fmt.Errorf("gmapUpdated needs an interface value and an old state")
+		}
+		old := fg.lookup(e.old.st, vname, vsort)
+		return CVal{T: Eq(cur, Store(old, idx, Store(Select(old, idx), key.T, val.T)))}, nil
 	case "inDom":
 		m, err := e.eval(args[0])
 		if err != nil {
